@@ -270,11 +270,11 @@ Proof.
     + destruct la as [|s rest]; [discriminate|]. rewrite groups_cons in Ee. cbn [existsb fst] in Ee.
       apply orb_false_iff in Ee. destruct Ee as [Ee1 Ee2].
       unfold has_key in Eh. cbn [existsb] in Eh. unfold same_key in Eh at 1.
-      rewrite bytes_eqb_sym, Ee1 in Eh. cbn [orb] in Eh.
+      rewrite (bytes_eqb_sym (sel_key s) k) in Eh. rewrite Ee1 in Eh. cbn [orb] in Eh.
       apply (IH (filter (fun x => negb (same_key (sel_key s) x)) rest)); [| |exact Ee2].
       * pose proof (filter_length_le (fun x => negb (same_key (sel_key s) x)) rest). simpl in Hlen. lia.
       * unfold has_key. rewrite existsb_filter_imp; [exact Eh|].
-        intros y Hy. unfold same_key in *. apply bytes_eqb_eq in Hy. rewrite Hy, bytes_eqb_sym, Ee1. reflexivity.
+        intros y Hy. unfold same_key in *. apply bytes_eqb_eq in Hy. rewrite Hy, Ee1. reflexivity.
   - symmetry. destruct (existsb _ (groups la)) eqn:Ee; [|reflexivity].
     apply existsb_exists in Ee. destruct Ee as (g & Hg & Hk). apply bytes_eqb_eq in Hk.
     pose proof (groups_has_key la) as HF. rewrite Forall_forall in HF. specialize (HF _ Hg).
